@@ -1,0 +1,7 @@
+//go:build !verif
+
+package repl
+
+// verifFS marks a file system step of the history, stash and config file
+// updates. It does nothing unless built with the verif tag.
+func verifFS(point string) {}
